@@ -263,6 +263,7 @@ def clamp_rule(ck, mod, f, st, label):
     if pi is None:
         raise Broken("%s: no size_t limit parameter found" % f.name)
     where = relpath(st.where)
+    field = ir.ptr_base(f, st.ops[1])
     consts = fin.constants_compared(f, ("a", pi))
     cuts = sorted({0, 1, MAXLIM, MAXLIM + 1, (1 << 64) - 1} | {c for c in consts} | {c + 1 for c in consts if c + 1 < 1 << 64})
     classes = []
@@ -277,7 +278,8 @@ def clamp_rule(ck, mod, f, st, label):
         got = []
 
         def on_store(I, env, getiv):
-            if I.id == st.id:
+            # (any store into the limit field: a setter with one store per class of the parameter is one function of the parameter)
+            if I.id == st.id or (I.op == "store" and ir.ptr_base(f, I.ops[1]) == field):
                 got.append(getiv(I.ops[0], 32))
         rng.explore_intervals(f, {("a", pi): rng.Iv(lo, hi, 64)}, on_store)
         ok = bool(got) and all(1 <= g.lo and g.hi <= MAXLIM // 32 for g in got)
@@ -298,11 +300,12 @@ def clamp_rule(ck, mod, f, st, label):
         vals = []
 
         def classify(I, e):
-            if I.id == st.id:
+            if I.id == st.id or (I.op == "store" and ir.ptr_base(f, I.ops[1]) == field):
                 v = I.ops[0]
                 vals.append(int(v[1]) if v[0] == "c" else e.get(v))
             return None
         fin.explore(f, None, {("a", pi): r}, classify)
+        vals = vals[-1:]            # the value the field holds at the end of the (single, concrete) path
         want = max(1, (min(r, MAXLIM) + 31) // 32)
         ck.ob(vals == [want], "R-C16-CLAMP", f.name, "limit-value(%s)[%s]" % (r if r < 1 << 40 else hex(r), label),
               "limit %d -> %d blocks = ceil(min(limit, 1 MiB)/32), minimum 1" % (r, want),
